@@ -418,7 +418,7 @@ def check_node(ctx, nd, k, test_idx, rp):
                   f"state after {nd.seq} differs from the from-scratch posterior on the same data beyond the rounding "
                   f"bound (predictive mean by up to {dm:.3g}, bound {tm:.3g}) but equals the dense posterior whose "
                   f"appended diagonal entries are kernel.diagonal()+noise instead of kernel(x,x)+noise "
-                  f"(difference {max(ctx.dgap[i] for i in nd.idx):.3g})", rp)
+                  f"(difference {max(ctx.dgap[i] for i in nd.idx):.3g})", rp, sev=dm)
         return pat
     _probe_node(ctx, nd, strict, test_idx, pat, rp, True, out)
     return pat
@@ -725,6 +725,9 @@ def run(tier, seed):
     for cov, viols in pmap(task, tasks):
         res.cov.merge(cov)
         res.violations.extend(viols)
+    # the one known root cause (diagonal() vs forward()) last, so that anything else is listed first
+    # (and, per key, the instance with the largest effect first: the CLI keeps the first one per key)
+    res.violations.sort(key=lambda v: (v.key.startswith("incr/diagonal-vs-forward-gap"), -getattr(v, "sev", 0.0)))
     res.rule = RULE
     nspec = {d: len(kernel_specs(d, tier)) for d in (1, 2, 3)}
     res.bounds = {"tier": tier, "tasks": len(tasks), "kernel_configs_per_d": nspec, "n": [1, 2, 3, 5], "d": [1, 2, 3],
@@ -739,9 +742,13 @@ def run(tier, seed):
         "sample_posterior_joint), or the next AddJitterOp ladder value when detected",
         "AddJitterOp / cholesky_update clamping are detected from the returned factor; such cases are compared with the same "
         "jitter added to the reference (from-scratch) or excluded and counted (clamped pivot)",
-        "rows appended by update/sample_and_update use KernelFunction.diagonal() (= textbook prior variance) on the diagonal, "
-        "from-scratch states use forward(); the difference (<= NUMERICAL_JITTER/2 * prior variance) is admitted as a "
-        "perturbation of those diagonal entries in the incremental-vs-from-scratch comparison",
+        "prior variance k(x,x): KernelFunction.diagonal() (= textbook value, documented) and the diagonal of forward() "
+        "(with the sqrt safeguard) differ by <= NUMERICAL_JITTER/2 * k(x,x); predictive variances are accepted with either "
+        "as the prior term (additive, not amplified)",
+        "incremental == from-scratch is checked against the consistent dense definition first (rounding bound only); a "
+        "state that fails it but equals the dense posterior whose appended diagonal entries are diagonal()+noise is "
+        "reported under the dedicated key incr/diagonal-vs-forward-gap:<family>:<dup pattern> (one root cause: "
+        "cholesky_update takes k(x,x) from diagonal(), cholesky_computations from forward())",
         "parameter values are read back through get_params() (logarithm encoding) and the reference is evaluated at those",
         "VERIF_SEED is not used: the enumeration is complete for the tier and does not depend on it",
     ]
